@@ -357,7 +357,33 @@ def r4_call_pure(repo: Repo, rep):
                           f"`{name}` is only type-tested; the whole container `{container}` is stored instead", f"{container} stored instead of {name}")
 
 
+def r5_point_data(repo: Repo, rep):
+    R = rep.rule("R-C17-5", "the Point replacing a fully fixed product factor takes its coordinates in the order of the factor's space, each looked up by name", floor=2,
+                 why="keyword-argument order is the caller's: collecting in that order puts x-values into y-columns")
+    from collections import OrderedDict
+    from ..absdom.listeval import Evaluator, norm
+    from ..absdom.poly import RF
+    ci = repo.cls(f"{DOM}.domainoperations.product.ProductDomain")
+    fi = ci.methods.get("_create_point_data")
+    if fi is None:
+        rep.undecided(R, ci.module.relpath, ci.fq, "_create_point_data helper", "vanished: idiom not recognised")
+        return
+    rep.saw(fi)
+    space = OrderedDict((("x", 1), ("y", 1), ("z", 2)))
+    X, Y, Z0, Z1, T = (RF.atom(n) for n in ("X", "Y", "Z0", "Z1", "T"))
+    for order in (("x", "y", "z", "t"), ("z", "t", "y", "x"), ("y", "x", "t", "z")):
+        vals = {"x": X, "y": Y, "z": [Z0, Z1], "t": T}
+        data = OrderedDict((k, vals[k]) for k in order)
+        fr = Evaluator().run(fi.node.body, {fi.params[1]: OrderedDict(space), fi.params[2]: data, "self": None})
+        got = fr.ret
+        if not isinstance(got, list):
+            rep.undecided(R, fi.site(), fi.fq, f"point data evaluable for keyword order {order}", repr(got)[:80])
+            continue
+        rep.check(R, norm(got) == norm([X, Y, Z0, Z1]), fi.site(), fi.fq, f"data given in the order {order}: coordinates (x, y, z0, z1) of the space (x, y, z)", str(norm(got)), f"{order}: {norm(got)}")
+
+
 def run(repo: Repo, rep):
+    r5_point_data(repo, rep)
     r1_roundtrip(repo, rep)
     r2_setters(repo, rep)
     r3_necessary_variables(repo, rep)
